@@ -64,6 +64,7 @@ type raceCtl struct {
 	active  bool
 	// park the caller before its select only when the schedule asks for it
 	wantsPremain bool
+	wantsCb      bool
 }
 
 func (c *raceCtl) hit(name string) {
@@ -364,6 +365,9 @@ func raceCase(args []string) string {
 		if st == "premain" {
 			ctl.wantsPremain = true
 		}
+		if st == "cb" {
+			ctl.wantsCb = true
+		}
 	}
 	var emu sync.Mutex
 	established := map[string]bool{} // candidates whose dial returned a connection (they reached the hook behind tr.Dial)
@@ -405,6 +409,9 @@ func raceCase(args []string) string {
 				failures = append(failures, fmt.Sprintf("%s: %v", addrLabel[u.Addr], u.Err))
 			}
 			umu.Unlock()
+			if ctl.wantsCb && u.State == ice.ProbeStateWon {
+				ctl.hit("cb") // the status callback of the winning dial takes its time (it is display code in the application)
+			}
 		})
 		resCh <- res{c, err}
 	}()
@@ -429,10 +436,17 @@ func raceCase(args []string) string {
 				}
 			}
 			if !callerParked {
-				select {
-				case r = <-resCh:
-					gotRes = true
-				case <-time.After(3 * time.Second):
+				// the caller's select may still take a connection that is already in the channel (it then stops at its own hook: let it go on)
+				deadline := time.Now().Add(3 * time.Second)
+				for !gotRes && time.Now().Before(deadline) {
+					select {
+					case r = <-resCh:
+						gotRes = true
+					case <-time.After(5 * time.Millisecond):
+						ctl.release("main", time.Millisecond)
+					}
+				}
+				if !gotRes {
 					out["schedule_stuck_at"] = step
 				}
 			}
